@@ -144,6 +144,8 @@ class Exec(ExprMixin, CallMixin):
             st.locals[nm] = v
         for g, ty in contract.ghost.items():
             st.locals[g] = from_consts(parse_type(ty), g)
+        for g, (ty, init) in contract.ghost_init.items():
+            st.locals[g] = coerce(self.eval_spec_value(init, st, st.locals, st), parse_type(ty), f"ghost {g}")
         st.old = st.copy()
         if fi.is_generator:
             yt = parse_type(contract.yields or "list[int]")
@@ -227,6 +229,7 @@ class Exec(ExprMixin, CallMixin):
             res = self.coerce_checked(st, res, parse_type(c.returns), "return value")
         env = dict(st.old.locals)
         env["result"] = res
+        self.witness_cands = [v.e for k, v in st.locals.items() if k.startswith("_i") and isinstance(v, VInt)]
         for lm in c.exit_lemmas:
             st.assume(self.eval_spec(lm, st, env, st.old))
         for i, e in enumerate(c.ensures):
@@ -287,7 +290,7 @@ class Exec(ExprMixin, CallMixin):
 
     def lemmas_at(self, s, st, before=False):
         c = self.cur[1]
-        if not c.lemmas or self.inline_depth:
+        if (not c.lemmas and not c.ghost_updates) or self.inline_depth:
             return
         text = ast.unparse(s).split("\n")[0]
         for anchor, exprs in c.lemmas.items():
@@ -297,6 +300,13 @@ class Exec(ExprMixin, CallMixin):
                 self.used_anchors.add(anchor)
                 for e in exprs:
                     st.assume(self.eval_spec(e, st, self.spec_locals(st), st.old))
+        if not before:
+            for anchor, ups in c.ghost_updates.items():
+                if anchor in text:
+                    self.used_anchors.add(anchor)
+                    for name, e in ups:
+                        v = self.eval_spec_value(e, st, self.spec_locals(st), st.old)
+                        st.locals[name] = coerce(v, st.locals[name].ty, f"ghost {name}") if name in st.locals else v
 
     def st_Expr(self, s, st):
         if isinstance(s.value, ast.Constant):
@@ -637,6 +647,9 @@ class Exec(ExprMixin, CallMixin):
 
     def havoc_for_loop(self, st, body, lc):
         names = self.assigned_names(body, st)
+        for anchor, ups in self.cur[1].ghost_updates.items():
+            if any(anchor in ast.unparse(n).split("\n")[0] for s_ in body for n in ast.walk(s_) if isinstance(n, ast.stmt)):
+                names.update(nm for nm, _ in ups)
         c = self.cur[1]
         for nm in sorted(names):
             if nm in c.locals:
